@@ -95,9 +95,9 @@ func (h *lifeHead) HandleRead(ctx netty.InboundContext, m netty.Message) {
 	buf := make([]byte, 1)
 	if _, err := tr.Read(buf); err != nil {
 		h.c.Emit("read:e:fail:%s", lifeErrClass(err))
-		if errors.Is(err, mock.ErrClosed) {
-			// reads on a transport that is already closed fail at once: the loop spins until the closer has cancelled
-			// the context. A fair scheduler lets the closer run; tell the controller that this goroutine is only polling.
+		if errors.Is(err, mock.ErrClosed) || !ctx.Channel().IsActive() {
+			// reads on a transport that is already closed - or failing reads of a channel somebody is in the middle of
+			// closing, whose exception is dropped - fail at once: the loop spins until the closer has cancelled the context. A fair scheduler lets the closer run; tell the controller that this goroutine is only polling.
 			h.c.Sleep("read.closed")
 		}
 		panic(err)
